@@ -22,6 +22,29 @@ pub const MONO_BASE_S: u64 = 100_000;
 /// anywhere, also from inside a seam call).
 static NOW_US: AtomicU64 = AtomicU64::new(0);
 
+/// Set by every write to the terminal (fd 1); cleared when the frame marker is emitted.
+static STDOUT_DIRTY: std::sync::atomic::AtomicBool = std::sync::atomic::AtomicBool::new(false);
+
+/// Output seam: the client's writes to the terminal pass through here (std's `Stdout` calls the C
+/// library's `write` / `writev`; as with `clock_gettime` the definition in the executable wins).
+/// Nothing is changed or delayed; the seam only learns that something was drawn, so that the
+/// frame marker can follow every draw whatever the shape of the client's main loop.
+#[no_mangle]
+pub unsafe extern "C" fn write(fd: libc::c_int, buf: *const libc::c_void, n: libc::size_t) -> libc::ssize_t {
+    if fd == 1 && n > 0 {
+        STDOUT_DIRTY.store(true, Ordering::SeqCst);
+    }
+    libc::syscall(libc::SYS_write, fd, buf, n) as libc::ssize_t
+}
+
+#[no_mangle]
+pub unsafe extern "C" fn writev(fd: libc::c_int, iov: *const libc::iovec, cnt: libc::c_int) -> libc::ssize_t {
+    if fd == 1 && cnt > 0 {
+        STDOUT_DIRTY.store(true, Ordering::SeqCst);
+    }
+    libc::syscall(libc::SYS_writev, fd, iov, cnt) as libc::ssize_t
+}
+
 /// Clock seam of the whole child process: every `Instant::now()` / `SystemTime::now()` of the
 /// client and of its dependencies (std calls the C library's `clock_gettime`; this definition in
 /// the executable takes precedence over the one in libc.so) reads the simulator's virtual clock.
@@ -68,7 +91,6 @@ struct Sim {
     next_event: usize,
     iter: u64,
     coalesce_i: usize,
-    in_event_loop: bool,
     sessions: Vec<Session>,
     log_fd: i32,
     log_buf: String,
@@ -249,7 +271,6 @@ fn with_sim<T>(f: impl FnOnce(&mut Sim) -> T) -> T {
             next_event: 0,
             iter: 0,
             coalesce_i: 0,
-            in_event_loop: false,
             sessions: vec![],
             log_fd,
             log_buf: String::with_capacity(16 * 1024),
@@ -660,13 +681,14 @@ pub mod event {
     pub fn poll(timeout: Duration) -> io::Result<bool> {
         with_sim(|sim| {
             sim.step();
-            if !sim.in_event_loop {
-                // first poll after the client's draw (the previous poll returned false, or this is
-                // the first one): in-band frame marker (ratatui has flushed)
+            if super::STDOUT_DIRTY.swap(false, std::sync::atomic::Ordering::SeqCst) {
+                // the client has written to the terminal since the last marker (a draw, flushed by
+                // ratatui before it polls): in-band frame marker
                 sim.frames += 1;
                 let marker = format!("\x1b]777;frame;{};{}\x07", sim.frames, sim.now_us);
                 unsafe {
-                    libc::write(1, marker.as_ptr().cast(), marker.len());
+                    // (not through the output seam: the marker is not a draw)
+                    libc::syscall(libc::SYS_write, 1, marker.as_ptr(), marker.len());
                 }
                 let total: u64 = sim.sessions.iter().map(|s| s.delivered).sum();
                 sim.log(&format!("FRAME {} total={}", sim.frames, total));
@@ -684,16 +706,12 @@ pub mod event {
                 Some(t) if t <= sim.now_us + d => {
                     sim.advance_to(t);
                     sim.log("POLL 1");
-                    // the client reads the event and polls again before it draws
-                    sim.in_event_loop = true;
                     Ok(true)
                 }
                 _ => {
                     let t = sim.now_us + d;
                     sim.advance_to(t);
                     sim.log("POLL 0");
-                    // the client leaves its event loop; its next poll follows a draw
-                    sim.in_event_loop = false;
                     Ok(false)
                 }
             }
